@@ -220,6 +220,12 @@ func (eng *Engine) verifyFunc(fn *ssa.Function, fc *FuncContract, props []string
 		if fc == nil {
 			continue
 		}
+		if _, te := fc.Flags["trusted_ensures"]; te {
+			// the postconditions are assumed by callers but not checked here (stated reason in the
+			// contract; listed among the assumptions); the body is still checked for panics,
+			// loop invariants, before- and at_return-clauses
+			continue
+		}
 		for ci, cl := range fc.Ensures {
 			if cl.Variant != "" && !sct.matches(cl.Variant) {
 				continue
@@ -517,6 +523,9 @@ func (e *Exec) callByContract(st *State, c *FuncContract, callee *ssa.Function, 
 	e.libUsed["contract:"+name] = true
 	if c.Trusted {
 		e.libUsed["trusted-contract:"+name] = true
+	}
+	if _, te := c.Flags["trusted_ensures"]; te {
+		e.libUsed["trusted-contract:"+name+" (postconditions only)"] = true
 	}
 	// bind parameters
 	vars := map[string]Val{}
